@@ -61,6 +61,20 @@ func main() {
 		replay(os.Args[2:])
 	case "selftest":
 		selftest(os.Args[2:])
+	case "trace":
+		sc := vexp.Get(os.Args[2])
+		cfg := map[string]int{}
+		if sc.Configs != nil && len(os.Args) < 5 {
+			cfg = sc.Configs(false)[0]
+		}
+		var n int
+		fmt.Sscan(os.Args[3], &n)
+		sc.MaxSteps = n
+		x := vexp.RunOnce(sc, cfg, nil, true)
+		for _, l := range x.Trace {
+			fmt.Println(l)
+		}
+		fmt.Println("horizon", x.Horizon, "deadlock", x.Deadlock, x.Blocked, "outcome", x.Ctx.Outcome, x.Ctx.Findings)
 	case "c07":
 		c07cmd(os.Args[2:])
 	case "list":
